@@ -27,6 +27,14 @@ impl CommandCompiler {
         }
     }
 
+    /// The full statics arena behind an analysis: `ProgramAnalysis::statics` keeps only
+    /// the keyed indexes, which is not enough to print typed nodes.
+    pub fn materialize_arena(
+        &self, analysis: &ProgramAnalysis,
+    ) -> Result<Arc<StaticsArena>, CompileError> {
+        self.session.materialize_arena(analysis).map_err(CompileError::Analysis)
+    }
+
     pub fn checked_program(
         &self, analysis: &ProgramAnalysis,
     ) -> Option<zydeco_session::CheckedProgram> {
